@@ -166,13 +166,13 @@ def run(ctx):
         "theorem": ["READER OBJECT STATE (round 4, model/ReaderReuse.v): SAMI line / first_alignment, DFXP nodes, MicroDVD fps, WebVTT "
                     "previous start under its options - every history of documents on one object incl. raising reads gives the "
                     "fresh-object results under the code's resets; redundant resets identified; partial resets refuted by "
-                    "two-document witnesses (C10_par_/C10_mdvd_/C10_vtt_reader_history_isolated, ..._refuted); executed against "
+                    "two-document witnesses (C10_par_/C10_mdvd_/C10_vtt_reader_history_isolated_unfold, ..._refuted); executed against "
                     "the real reused readers (request 1003)",
                     "SCC READER REUSE (wave 7, over the decoder model): a read() of an SCCReader object in ANY state returns what "
                     "a new object returns, for every document / offset, provided the reset covers the twelve decoder fields; "
                     "lifted to every history of documents incl. refused ones; the code's reset covers them; refuted for "
-                    "no reset and for six single-field omissions (C10_scc_read_independent_of_reader_state, "
-                    "C10_scc_reader_history_isolated, C10_scc_partial_resets_refuted); the model is executed against the "
+                    "no reset and for six single-field omissions (C10_scc_read_independent_of_reader_state_unfold, "
+                    "C10_scc_reader_history_isolated_unfold, C10_scc_partial_resets_refuted); the model is executed against the "
                     "real reused reader on generated document sequences (request 1002)",
                     "THE MODEL MEETS THE ORACLE: ok_c10 evaluated on the model's own observations of any history reports "
                     "nothing (C10_model_meets_oracle)",
